@@ -48,6 +48,13 @@ func detWorkload(t *sim.Tape) (ops []detOp, desc string) {
 	prog := gen.GenPS(t, gen.PSOpts{MaxTokens: 60, ForallDict: false, Errors: 3, MaxAlloc: 50, Hostile: false, PlainLex: true})
 	desc = fmt.Sprintf("%s; metrics with %d glyphs, %d kern pairs; CMap file with %d CMaps; program of %d tokens", gen.DescribeFont(f), len(m.Glyphs), len(m.Kern), ncm, prog.NTokens)
 
+	// first of all, before anything else has run in a fresh process: the
+	// package's default options
+	ops = append(ops, detOp{name: "Font.Write(default options)", run: func() string {
+		var buf bytes.Buffer
+		err := f.Write(&buf, nil)
+		return dump.Err(err) + " " + buf.String()
+	}})
 	var fontFiles [][]byte
 	for _, format := range gen.FontFormats {
 		format := format
@@ -121,6 +128,12 @@ func detWorkload(t *sim.Tape) (ops []detOp, desc string) {
 				r += " | " + dump.Err(err2) + " " + dump.Font(g2)
 			}
 			return r
+		}})
+	}
+	if cf := gen.CaseVariantFont(t); cf != nil {
+		ops = append(ops, detOp{name: "type1.Read(FontInfo keys differing in case only)", run: func() string {
+			g, err := type1.Read(bytes.NewReader(cf))
+			return dump.Err(err) + " " + dump.Font(g)
 		}})
 	}
 	if af := gen.AliasFont(t); af != nil {
